@@ -9,6 +9,8 @@ import copy
 
 import torch
 
+from ..market import outside_price_domain
+
 from ..core import History, Inconclusive, Stats, Violation, bit_equal, thash
 from ..gen import COSTS, STOCK_KINDS, gen_clauses, gen_criterion, gen_derivative, gen_hedger, gen_primary
 from ..world import DT, HAS_VOL, OPTION_KINDS, World, abstract_state, build_derivative, cast_module_outputs
@@ -184,6 +186,9 @@ def _execute(program, stats, hist):
                 with torch.no_grad():
                     for _t in range(n_times):
                         d.simulate(n_paths=n_paths, init_state=init)
+                        if outside_price_domain(world):
+                            finite = False   # a non-positive price (Euler local-volatility scheme): log / Black-Scholes inputs undefined
+                            break
                         plx = h.compute_portfolio(d, hedge=hedge) - d.payoff()
                         if not bool(torch.isfinite(plx).all()) or (ck == "IsoelasticLoss" and float(plx.min()) <= 0):
                             finite = False
@@ -293,6 +298,9 @@ def _execute(program, stats, hist):
                 with torch.no_grad():
                     for _t in range(n_times):
                         dk.simulate(n_paths=n_paths, init_state=init)
+                        if outside_price_domain(world):
+                            unevaluable = True
+                            break
                         plx = h.compute_portfolio(dk, hedge=hedge) - dk.payoff()
                         if not bool(torch.isfinite(plx).all()):
                             unevaluable = True
